@@ -631,4 +631,188 @@ theorem specCut_plain (z : Zone) (q : List Bytes) (qtype : Nat) (l : Bytes) (cut
 
 end SpecPieces
 
+section Refinement
+open Spec DnsVerif.Loc
+
+/-! ### packed names -/
+
+def LabelOK (lab : Bytes) : Prop := lab ≠ [] ∧ lab.length < 64 ∧ toLower lab = lab
+
+/-- a name the v1 key layout can hold: non-empty lower-case labels shorter than 64, wire length ≤ 255 -/
+def NameOK (ls : List Bytes) : Prop := (∀ lab ∈ ls, LabelOK lab) ∧ (pack ls).length ≤ 255
+
+instance (lab : Bytes) : Decidable (LabelOK lab) := by unfold LabelOK; infer_instance
+instance (ls : List Bytes) : Decidable (NameOK ls) := by unfold NameOK; infer_instance
+
+theorem pack_nil : pack [] = [0] := rfl
+
+theorem pack_cons (lab : Bytes) (rest : List Bytes) :
+    pack (lab :: rest) = UInt8.ofNat lab.length :: (lab ++ pack rest) := by
+  simp [pack]
+
+theorem pack_ne_nil (ls : List Bytes) : pack ls ≠ [] := by
+  simp [pack]
+
+theorem NameOK.tail {lab : Bytes} {rest : List Bytes} (h : NameOK (lab :: rest)) : NameOK rest := by
+  refine ⟨fun x hx => h.1 x (List.mem_cons_of_mem _ hx), ?_⟩
+  have := h.2
+  rw [pack_cons] at this
+  simp only [List.length_cons, List.length_append] at this
+  omega
+
+theorem NameOK.head {lab : Bytes} {rest : List Bytes} (h : NameOK (lab :: rest)) : LabelOK lab :=
+  h.1 lab (by simp)
+
+theorem nameOK_nil : NameOK [] := ⟨by simp, by decide⟩
+
+theorem NameOK.ancestor {q a : List Bytes} (h : NameOK q) (ha : a ∈ Spec.ancestorsOrSelf q) : NameOK a := by
+  induction q with
+  | nil => simp [Spec.ancestorsOrSelf] at ha; subst ha; exact h
+  | cons lab rest ih =>
+    simp only [Spec.ancestorsOrSelf, List.mem_cons] at ha
+    rcases ha with ha | ha
+    · subst ha; exact h
+    · exact ih h.tail ha
+
+theorem LabelOK.len_byte {lab : Bytes} (h : LabelOK lab) :
+    (UInt8.ofNat lab.length).toNat = lab.length ∧ UInt8.ofNat lab.length ≠ 0 := by
+  have h1 : (UInt8.ofNat lab.length).toNat = lab.length := toNat_ofNat_lt _ (by have := h.2.1; omega)
+  refine ⟨h1, ?_⟩
+  intro h0
+  have : (UInt8.ofNat lab.length).toNat = 0 := by rw [h0]; rfl
+  rw [h1] at this
+  exact h.1 (List.length_eq_zero_iff.mp this)
+
+theorem pack_injective : ∀ (a b : List Bytes), (∀ x ∈ a, LabelOK x) → (∀ x ∈ b, LabelOK x) →
+    pack a = pack b → a = b
+  | [], [], _, _, _ => rfl
+  | [], lb :: rb, _, hb, h => by
+    rw [pack_nil, pack_cons] at h
+    simp only [List.cons.injEq] at h
+    exact absurd h.1.symm (hb lb (by simp)).len_byte.2
+  | la :: ra, [], ha, _, h => by
+    rw [pack_nil, pack_cons] at h
+    simp only [List.cons.injEq] at h
+    exact absurd h.1 (ha la (by simp)).len_byte.2
+  | la :: ra, lb :: rb, ha, hb, h => by
+    rw [pack_cons, pack_cons] at h
+    simp only [List.cons.injEq] at h
+    have hla := (ha la (by simp)).len_byte.1
+    have hlb := (hb lb (by simp)).len_byte.1
+    have hlen : la.length = lb.length := by rw [← hla, ← hlb, h.1]
+    have := List.append_inj h.2 hlen
+    rw [this.1, pack_injective ra rb (fun x hx => ha x (List.mem_cons_of_mem _ hx))
+      (fun x hx => hb x (List.mem_cons_of_mem _ hx)) this.2]
+
+
+/-! ### records ↔ rows -/
+
+/-- the stored row of a declared record -/
+def rowOfRec (r : Rec) : Bytes :=
+  putrrhead r.type r.ttl (if r.loc = [0, 0] then none else some r.loc) r.wild
+    ++ (if r.type = 1 ∨ r.type = 28 then be32 r.weight else []) ++ r.rdata
+
+/-- the records declared for one owner under one location tag, in file order -/
+def recsAt (recs : List Rec) (ls : List Bytes) (loc : Bytes) : List Rec :=
+  recs.filter fun r => r.owner = ls ∧ r.loc = loc
+
+/-- under location tag `loc`, the store holds exactly the rows of the declared records (v1 keys) -/
+def RepresentsAt (s : Store) (recs : List Rec) (loc : Bytes) : Prop :=
+  ∀ ls, NameOK ls → s.get (loc ++ pack ls) = (recsAt recs ls loc).map rowOfRec
+
+def Represents (s : Store) (recs : List Rec) : Prop :=
+  ∀ loc : Bytes, loc.length = 2 → RepresentsAt s recs loc
+
+/-- field ranges of one record -/
+def RecOK (r : Rec) : Prop :=
+  r.type < 65536 ∧ r.ttl < 4294967296 ∧ r.loc.length = 2 ∧
+    ((r.type = 1 ∨ r.type = 28) → r.weight < 4294967296)
+
+instance (r : Rec) : Decidable (RecOK r) := by unfold RecOK; infer_instance
+
+/-- the fields the server reads back from the row of `r` -/
+def rowFields (r : Rec) : Row :=
+  ⟨r.type, r.ttl, if r.type = 1 ∨ r.type = 28 then r.weight else 0, r.rdata⟩
+
+theorem extractRR_rowOfRec (r : Rec) (h : RecOK r) (w : Bool) :
+    extractRR (rowOfRec r) w = if w ≠ r.wild then .mismatch else .row (rowFields r) := by
+  unfold rowOfRec
+  rw [List.append_assoc, extractRR_putrrhead_body r.type r.ttl _ r.wild w _ h.1 h.2.1
+    (by intro l hl; split at hl
+        · cases hl
+        · cases hl; exact h.2.2.1)]
+  by_cases hw : w ≠ r.wild
+  · rw [if_pos hw, if_pos hw]
+  · rw [if_neg hw, if_neg hw]
+    unfold rowFields
+    by_cases ht : r.type = 1 ∨ r.type = 28
+    · rw [if_pos ht, if_pos ht, afterHead_addr _ _ _ _ ht (h.2.2.2 ht)]
+    · rw [if_neg ht, if_neg ht, List.nil_append, afterHead_other _ _ _ (by omega)]
+
+/-- what a client in location `l` sees at a name: the records tagged `l`, then the untagged ones -/
+def visRecs (recs : List Rec) (l : Bytes) (ls : List Bytes) : List Rec :=
+  (if l ≠ [0, 0] then recsAt recs ls l else []) ++ recsAt recs ls [0, 0]
+
+theorem mem_visRecs (recs : List Rec) (l : Bytes) (ls : List Bytes) (r : Rec) :
+    r ∈ visRecs recs l ls ↔ r ∈ recs ∧ r.owner = ls ∧ visible l r = true := by
+  unfold visRecs recsAt visible
+  by_cases hl : l = [0, 0]
+  · subst hl; simp
+  · simp only [ne_eq, hl, not_false_eq_true, ↓reduceIte, List.mem_append, List.mem_filter,
+      decide_eq_true_eq, Bool.or_eq_true]
+    constructor
+    · rintro (⟨h1, h2, h3⟩ | ⟨h1, h2, h3⟩)
+      · exact ⟨h1, h2, Or.inr h3⟩
+      · exact ⟨h1, h2, Or.inl h3⟩
+    · rintro ⟨h1, h2, h3 | h3⟩
+      · exact Or.inr ⟨h1, h2, h3⟩
+      · exact Or.inl ⟨h1, h2, h3⟩
+
+/-- the two `ForEach` passes of the v1 readers, as rows of `visRecs` -/
+theorem rows_visRecs (s : Store) (recs : List Rec) (l : Bytes) (ls : List Bytes)
+    (h0 : RepresentsAt s recs [0, 0]) (hl : RepresentsAt s recs l) (hn : NameOK ls) :
+    (if l ≠ [0, 0] then s.get (l ++ pack ls) else []) ++ s.get ([0, 0] ++ pack ls)
+      = (visRecs recs l ls).map rowOfRec := by
+  unfold visRecs
+  rw [List.map_append, h0 ls hn]
+  by_cases h : l ≠ [0, 0]
+  · rw [if_pos h, if_pos h, hl ls hn]
+  · rw [if_neg h, if_neg h]; rfl
+
+
+/-! ### the zone-cut walk -/
+
+def anyT (rs : List Rec) (t : Nat) : Bool := rs.any fun r => decide (r.wild = false ∧ r.type = t)
+
+theorem scanCut_cons (row : Bytes) (rows : List Bytes) (ns auth : Bool) :
+    scanCut (row :: rows) ns auth =
+      match extractRR row false with
+      | .panic => none
+      | .mismatch => scanCut rows ns auth
+      | .row r => scanCut rows (ns || decide (r.qtype = 2)) (auth || decide (r.qtype = 6)) := by
+  unfold scanCut
+  rw [List.foldlM_cons]
+  cases extractRR row false <;> rfl
+
+theorem scanCut_rows (rs : List Rec) (h : ∀ r ∈ rs, RecOK r) (ns auth : Bool) :
+    scanCut (rs.map rowOfRec) ns auth = some (ns || anyT rs 2, auth || anyT rs 6) := by
+  induction rs generalizing ns auth with
+  | nil => simp [scanCut, anyT]
+  | cons r rs ih =>
+    rw [List.map_cons, scanCut_cons, extractRR_rowOfRec r (h r (by simp))]
+    have ih' := fun ns auth => ih (fun x hx => h x (List.mem_cons_of_mem _ hx)) ns auth
+    cases hw : r.wild with
+    | true =>
+      simp only [ne_eq, Bool.false_eq_true, not_false_eq_true, ↓reduceIte]
+      rw [ih']
+      simp [anyT, hw]
+    | false =>
+      simp only [ne_eq, not_true_eq_false, ↓reduceIte]
+      rw [ih']
+      simp [anyT, hw, rowFields, Bool.or_assoc]
+      exact ⟨rfl, rfl⟩
+
+
+end Refinement
+
 end DnsVerif.ServeRefine
